@@ -737,17 +737,50 @@ def _davidson(model: Model, D: RuleResult):
         D.bad(f, best[0] if best else loop, "davidson must record (theta, V y) whenever max_resid improves, before testing for exit, and return that pair")
     # re-orthonormalisation against M with the M-image of the whole new block
     qr = [c for c in ast.walk(loop) if isinstance(c, ast.Call) and ast.unparse(c.func) == "tallqr"]
-    okq = len(qr) == 2
+    okq = len(qr) >= 1
+    qdefs = function_defs(f.node)
+    covered = set()
+
+    def effective_mv(c, given: bool):
+        """what tallqr receives as MV when M is given / absent: 'image' (M.mm of the same block), 'none', or 'other'"""
+        mvk = [k.value for k in c.keywords if k.arg == "MV"] or ([c.args[1]] if len(c.args) > 1 else [])
+        if not mvk:
+            return "none"
+        todo, seen_, kinds_ = [mvk[0]], 0, set()
+        while todo and seen_ < 20:
+            e = todo.pop()
+            seen_ += 1
+            if isinstance(e, ast.IfExp):
+                tt = ast.unparse(e.test)
+                if tt == "%s is None" % pM:
+                    todo.append(e.orelse if given else e.body)
+                    continue
+                if tt == "%s is not None" % pM:
+                    todo.append(e.body if given else e.orelse)
+                    continue
+                kinds_.add("other")
+                continue
+            if isinstance(e, ast.Constant) and e.value is None:
+                kinds_.add("none")
+                continue
+            if has_form(e, "%s.mm(%s)" % (pM, ast.unparse(c.args[0]))):
+                kinds_.add("image")
+                continue
+            if isinstance(e, ast.Name) and qdefs.get(e.id):
+                ds_ = [d for d in qdefs[e.id] if d is not None]
+                # definitions under the opposite case do not reach this case
+                ds_ = [d for d in ds_ if not under(d, "%s is not None" % pM, not given)] or ds_
+                todo.extend(ds_)
+                continue
+            kinds_.add("other")
+        return kinds_.pop() if len(kinds_) == 1 else "other"
     for c in qr:
-        st = enclosing_stmt(c)
-        under_m = under(c, "%s is not None" % pM)
-        kw = {k.arg: ast.unparse(k.value) for k in c.keywords}
-        if under_m:
-            mvk = [k.value for k in c.keywords if k.arg == "MV"]
-            ds = origins(mvk[0], function_defs(f.node)) if mvk else []
-            okq = okq and bool(ds) and all(has_form(d, "%s.mm(%s)" % (pM, ast.unparse(c.args[0]))) for d in ds)
-        else:
-            okq = okq and not kw
+        cases = [True] if under(c, "%s is not None" % pM) else ([False] if under(c, "%s is not None" % pM, False) else [True, False])
+        for given in cases:
+            covered.add(given)
+            if not c.args or effective_mv(c, given) != ("image" if given else "none"):
+                okq = False
+    okq = okq and covered == {True, False}
     if okq:
         D.ok(f.fq, "the enlarged basis is re-orthonormalised by tallqr, against M (MV = M.mm of the same block) exactly when M is given")
     else:
